@@ -313,12 +313,82 @@ def oracle_structured(run, focus, sc, fr, cj):
                             % (qid, "active object" if is_ao[qid] else "deque", "lifo" if kind else "fifo", got, len(want), want), cj)
 
 
+def gen_restart(rng):
+    """one client: subscribe*, [publish* backlog], start, publish*, [stop, publish*, start, publish*], is_alive — the fabric is
+    stopped while deliveries may be in progress and started again; publications before, between and after"""
+    nq = rng.randint(1, 3)
+    subs = [(i, rng.random() < 0.4) for i in range(nq)]
+    p = []
+    for _ in range(rng.randint(1, 5)):
+        p.append(("subscribe", rng.randrange(nq), rng.randrange(2), rng.randrange(2)))
+    uid = [0]
+
+    def pubs(lo, hi):
+        for _ in range(rng.randint(lo, hi)):
+            p.append(("publish", rng.randrange(2), uid[0], rng.choice([1000, 1000, 1000, 5, 1])))
+            uid[0] += 1
+    pubs(0, 3)
+    p.append(("start", 0, 0, 0))
+    pubs(1, 4)
+    if rng.random() < 0.7:
+        p.append(("stop", 0, 0, 0))
+        pubs(0, 2)
+        p.append(("start", 0, 0, 0))
+        pubs(1, 3)
+    p.append(("is_alive", 0, 0, 0))
+    return FabScenario(subs, [p])
+
+
+def oracle_restart(run, focus, sc, fr, cj):
+    """what a restart scenario must show at rest: both delivery threads alive, every publication delivered exactly once per
+    subscription, publications of equal priority in publication order (per queue)"""
+    if fr.outcome != "quiescent" or fr.errors or not all(v for n, v in fr.finished.items() if n.startswith("K")):
+        return
+    p = sc.progs[0]
+    if fr.live["fifo"] != 1 or fr.live["lifo"] != 1 or (fr.alive and fr.alive[-1] is not True):
+        run.violate("C13/not-alive-after-restart", "after start() (following %s) and at rest: live delivery threads fifo=%d lifo=%d, "
+                    "is_alive()=%s" % ("a stop()" if any(c[0] == "stop" for c in p) else "publications", fr.live["fifo"], fr.live["lifo"],
+                                       fr.alive[-1] if fr.alive else None), cj)
+        return
+    regs = collections.defaultdict(list)
+    for c in p:
+        if c[0] == "subscribe" and (c[2], c[3]) not in regs[c[1]]:
+            regs[c[1]].append((c[2], c[3]))
+    pubs = [c for c in p if c[0] == "publish"]
+    is_ao = dict(sc.subs)
+    for qid, _ in sc.subs:
+        got = fr.subs[qid]
+        want_cnt = collections.Counter()
+        for c in pubs:
+            for sig, kind in regs[qid]:
+                if sig == c[1]:
+                    want_cnt["%d.%d" % (c[1], c[2])] += 1
+        if collections.Counter(got) != want_cnt:
+            run.violate("C06/delivery-count", "queue %d received %s, expected (as a multiset) %s: a publication made around stop()/start() "
+                        "was lost or duplicated" % (qid, got, dict(want_cnt)), cj)
+            continue
+        ks = set(k for _, k in regs[qid])
+        if len(ks) == 1 and not (1 in ks and is_ao[qid]):
+            prio = {"%d.%d" % (c[1], c[2]): c[3] for c in pubs}
+            order = {"%d.%d" % (c[1], c[2]): i for i, c in enumerate(pubs)}
+            for pr in set(prio.values()):
+                seq = [order[g] for g in got if prio[g] == pr]
+                if seq != sorted(seq):
+                    run.violate("C08/order-equal-priority", "queue %d received %s: publications of priority %d are not in publication order"
+                                % (qid, got, pr), cj)
+                    break
+    run.count("restart scenario checked at rest")
+
+
 def explore(run, focus, n_random):
     rng = run.rng
     done = []
     for n in range(n_random):
         structured = (n % 2 == 0) if focus in ("C06", "C08", "C09") else (n % 4 == 0)
-        sc = gen_structured(rng) if structured else gen_chaotic(rng)
+        restart = n % 5 == 4
+        sc = gen_restart(rng) if restart else (gen_structured(rng) if structured else gen_chaotic(rng))
+        if restart:
+            structured = False
         seed = rng.randrange(1 << 30)
         r2 = random.Random(seed)
         if r2.random() < 0.5:
@@ -327,9 +397,11 @@ def explore(run, focus, n_random):
             base, kind = dsched.random_chooser(r2), "random"
         fr = run_real(sc, base)
         cj = {"scenario": sc.to_json(), "chooser": kind, "seed": seed, "schedule": [e[0] for e in fr.trace]}
-        run.count("structured" if structured else "chaotic")
+        run.count("restart" if restart else ("structured" if structured else "chaotic"))
         run.count("outcome " + str(fr.outcome))
         oracle(run, focus, sc, fr, cj, structured)
+        if restart:
+            oracle_restart(run, focus, sc, fr, cj)
         run.case({"scenario": sc.to_json(), "chooser": kind, "seed": seed, "steps": fr.steps},
                  nontrivial=sum(len(p) for p in sc.progs) >= 4)
         done.append((sc, fr, cj))
